@@ -197,6 +197,10 @@ Definition timeOfRep (cf : scfg) (t : rep) (nowMS : Z) : Z :=
   lastTimeOf (generateTimelineEntries t (calcWrapTimes (sc_loopMS cf) (sc_cfg cf) (nowMS + 50) 100)
                                       (atoMSint (sc_cfg cf))).
 
+(** Table of the first representation of the session (the reference of sendMediaSegments). *)
+Definition ref0tab (cf : scfg) : option rep :=
+  match sc_reps cf with ir0 :: _ => ir_tab ir0 | [] => None end.
+
 Fixpoint sendReps (cf : scfg) (idx : Z) (reps : list irep) (nr nowMS : Z) (last : bool) (ref_ok : bool)
   : res (list mput) :=
   match reps with
@@ -209,7 +213,16 @@ Fixpoint sendReps (cf : scfg) (idx : Z) (reps : list irep) (nr nowMS : Z) (last 
                  | _ => true end in
       if own then
         match ir_tab ir with
-        | None => Panic "generateTimelineEntries: nil pointer dereference"
+        | None =>
+          (* A generated subtitle track has no table.  Since fix dc9fc5d its $Time$ is the reference
+             time (last entry of the first representation's timeline) converted to milliseconds as in
+             the MPD; a first representation without a table is still a nil dereference. *)
+          match ir_kind ir, ref0tab cf, idx =? 0 with
+          | RText, Some t0, false =>
+            do tl <- sendReps cf (idx + 1) rest nr nowMS last ref_ok;
+            Ok (mk (Some (round_div (timeOfRep cf t0 nowMS * 1000) (ts t0))) ref_ok :: tl)
+          | _, _, _ => Panic "generateTimelineEntries: nil pointer dereference"
+          end
         | Some t =>
           let tm := timeOfRep cf t nowMS in
           let ok := match ir_kind ir with
